@@ -1213,6 +1213,24 @@ func (e *Env) call(x *ECall) *SV {
 		c.uses["str"] = true
 		c.declareFun("ext.strings.TrimSpace", []string{"String"}, "String")
 		return &SV{S: "(ext.strings.TrimSpace " + arg(0).S + ")", T: types.Typ[types.String]}
+	case "lockheld", "lockwheld", "lockepoch", "lockepochAt":
+		// lock bookkeeping of functions with a lock-order option (see lockOrder)
+		get := func(k, def string) string {
+			if v, ok := e.st.ghost[k]; ok {
+				return v
+			}
+			return def
+		}
+		switch x.Fun {
+		case "lockheld":
+			return e.boolSV(get("lock.held."+typeArgName(x.Args[0]), "false"))
+		case "lockwheld":
+			return e.boolSV(get("lock.wheld."+typeArgName(x.Args[0]), "false"))
+		case "lockepoch":
+			return e.intSV(get("lockn.epoch."+typeArgName(x.Args[0]), "0"))
+		default:
+			return e.intSV(get("lockn.at."+typeArgName(x.Args[1])+"."+typeArgName(x.Args[0]), "(- 1)"))
+		}
 	case "errClass":
 		c.declErrClass()
 		return e.intSV("(ext.errclass " + arg(0).S + ")")
